@@ -186,7 +186,14 @@ def canon(res, fresh=None, old=None):
 
 
 # ---------------------------------------------------------------------------------------------- generated programs
-POOL = ["a", "b", "v", "foo", "bar", "baz", "fooBar", "foo_bar", "_x", "_unused", "Foo", "Bar", "FOO_BAR", "x1", "$el", "T", "K", "tmp", "acc", "cb"]
+POOL = ["a", "b", "v", "foo", "bar", "baz", "fooBar", "foo_bar", "_x", "_unused", "Foo", "Bar", "FOO_BAR", "x1", "$el", "T", "K", "tmp", "acc", "cb", "x", "unused",
+        # spellings that are substrings of the keywords around them (a rule that searches the TEXT for the name finds the keyword)
+        "du", "mod", "are", "e", "et", "ons", "lass", "ype", "num", "ter", "ace", "ort", "unc", "ar"]
+
+
+def derived(rng, n):
+    """a spelling derived from another binding's name (rules derive `_x`, `X`, `x2` ... from `x` for their hints)"""
+    return rng.choice(["_" + n, n + "_", n + "2", n[:1].upper() + n[1:], n.upper(), "$" + n, "_" + n + "_", n + n])
 STMTS_ES = [
     "let N1 = 1;", "let N1; N1 = 2;", "let N1 = 1; N1 = 2; f(N1);", "const N1 = 1; N1 = 2;", "const N1 = 1; f(N1);", "var N1 = 1; var N1 = 2;",
     "var N1 = 1;", "function N1(N2) { return N2; }", "function N1(N2, N3) { return N2; }", "function N1() {} N1 = 1;", "class N1 {}", "class N1 { m() { N1 = 1; } }",
@@ -204,9 +211,14 @@ STMTS_ES = [
     # rules that compare expressions syntactically (alpha-equivalent function literals)
     "if ((N1) => N1) {} else if ((N1) => N1) {}", "switch (c) { case ((N1) => N1): break; case ((N1) => N1): break; }", "f(((N1) => N1) === ((N1) => N1));",
     "f(function (N1) { return N1; } == function (N1) { return N1; });", "if (c || ((N1) => 1)) {} else if ((N1) => 1) {}",
+    # the same spelling bound twice with one binding touched only from a statement HEAD whose body re-declares it
+    "let N1 = 0; for (let k1 = 0; k1 < 3; k1++, N1++) { let N1 = 1; f(N1); }", "let N1 = 0; if ((N1 = f())) { let N1 = 1; f(N1); }",
+    "let N1 = 0; while ((N1 = f())) { const N1 = 1; f(N1); }", "let N1 = 0; for (const k2 of (N1 = xs)) { let N1 = k2; f(N1); }",
+    "let N1 = 0; switch ((N1 = f())) { case 1: { let N1 = 2; f(N1); } }", "let N1 = 1, N2 = 2; { let N1 = N2; f(N1); } f(N1);",
     "let N1 = 1; function g2() { var N1 = 1; N1 = 2; }", "let N1 = 1; function g3() { const N1 = 1; f(N1); } N1 = 2;", "let N1 = f(); { class N1 {} }",
 ]
 STMTS_TS = [
+    "module N1 {}", "declare module N1 {}", "namespace N1 {}", "declare namespace N1 { const N2: number; }", "module N1 { export const N2 = 1; }", "module N1.N2 {}",
     "type N1 = number;", "type N1 = number; let N2: N1;", "interface N1 { m: number }", "interface N1 { m: N2 }", "let N1: N2;", "function N1<N2>(p: N2): N2 { return p; }",
     "function N1<N2>() {}", "enum N1 { A }", "enum N1 { A } f(N1.A);", "namespace N1 { const N2 = 1; }", "declare const N1: number;", "abstract class N1 { abstract m(): void; }",
     "class N1<N2> { p!: N2; }", "const N1 = <N2,>(p: N2) => p;", "let N1 = f() as N2;", "function N1(this: N2) {}", "type N1<N2> = N2 extends infer N3 ? N3 : never;",
@@ -221,6 +233,8 @@ def gen_program(rng):
     ts = rng.random() < 0.5
     n = rng.randint(1, 6)
     names = rng.sample(POOL, rng.randint(2, 5))
+    if rng.random() < 0.3:
+        names.append(derived(rng, rng.choice(names)))
     out = []
     for _ in range(n):
         tpl = rng.choice(STMTS_TS if ts and rng.random() < 0.4 else STMTS_ES)
